@@ -12,6 +12,8 @@ def dispatch (line : String) : String :=
   | "bin" :: args => handleBin args
   | "binrun" :: args => handleBinRun args
   | "binrunt" :: args => handleBinRunT args
+  | "binrung" :: args => handleBinRunG args
+  | "binruni" :: args => handleBinRunI args
   | "msearch" :: args => handleMSearch args
   | "rx" :: args => handleRx args
   | "drv" :: _ => handleDrv line
